@@ -7,7 +7,10 @@ L3  the property itself on the implementation: whole array vs subsets / permutat
     with duplicated rows, training data vs labels_ (and KernelRIM's fit-time probabilities), an independent
     single-row router for the trees, the retained hidden state H_.
 """
+import inspect
 import json
+import os
+import traceback
 import numpy as np
 from core import Check, enc_list, enc_mat, enc_vec, enc_opt, hx
 import impl
@@ -29,6 +32,72 @@ def stat(fam, diff):
     s[1] += diff == 0.0
     s[2] += 0.0 < diff <= TOL_P
     s[3] = max(s[3], float(diff))
+
+
+# ---------------------------------------------------------------------------------------------- instrumentation
+class HarnessError(Exception):
+    """a failure of the harness's own recording code (never a verdict about the implementation)"""
+
+
+def record_calls(obj, attr, rec, rec_err):
+    """Install a signature-agnostic recorder on the bound method obj.<attr>: arguments are forwarded unchanged
+    (positional or keyword), the first declared argument and the result are appended to rec; an exception of the
+    recording code itself goes to rec_err and never reaches the implementation.  Returns the un-installer."""
+    orig = getattr(obj, attr)
+    try:
+        sig = inspect.signature(orig)          # bound method: self is already bound
+    except (TypeError, ValueError):
+        sig = None
+
+    def wrapper(*args, **kwargs):
+        out = orig(*args, **kwargs)
+        try:
+            if sig is not None:
+                ba = sig.bind(*args, **kwargs)
+                ba.apply_defaults()
+                first = ba.arguments[next(iter(sig.parameters))]
+            else:
+                first = args[0] if args else next(iter(kwargs.values()))
+            rec.append((np.array(first, copy=True), np.array(out, copy=True)))
+        except Exception as e:  # noqa
+            rec_err.append(f"{type(e).__name__}: {e}")
+        return out
+    setattr(obj, attr, wrapper)
+
+    def restore():
+        try:
+            delattr(obj, attr)
+        except AttributeError:
+            pass
+    return restore
+
+
+HERE = os.path.abspath(__file__)
+
+
+def guarded(name, fn):
+    """Exceptions escaping a case: raised by the harness's own code (innermost frame in this file, or a HarnessError) ->
+    key harness-error:...; for an instrumented stream the case is first re-run WITHOUT instrumentation and only if the
+    implementation does not raise there is the original exception blamed on the harness.  Everything else is left to
+    core.run_stream (key <stream>:exception:<type>)."""
+    instrumented = "instrument" in inspect.signature(fn).parameters
+
+    def run(chk, i, rng):
+        try:
+            return fn(chk, i, rng)
+        except Exception as e:  # noqa
+            tb = traceback.extract_tb(e.__traceback__)
+            own = isinstance(e, HarnessError) or (tb and os.path.abspath(tb[-1].filename) == HERE)
+            info = {"traceback": traceback.format_exc(limit=8)}
+            if instrumented:
+                fn(chk, i, chk.rng(name, i), instrument=False)     # raises again if the implementation itself raises
+                chk.fail(f"harness-error:{name}:{type(e).__name__}", f"instrumented case raised {type(e).__name__}: {e}; the same case without "
+                         "instrumentation ran through, so this is a defect of the harness recorder, not of the implementation", info, layer="harness")
+            elif own:
+                chk.fail(f"harness-error:{name}:{type(e).__name__}", f"the harness's own code raised {type(e).__name__}: {e}", info, layer="harness")
+            else:
+                raise
+    return run
 
 
 # ---------------------------------------------------------------------------------------------- generators
@@ -273,7 +342,7 @@ def _callable_kernel(A, B):
     return np.exp(-0.3 * np.abs(A[:, None, :] - B[None, :, :]).sum(-1))
 
 
-def stream_krim(chk, i, rng):
+def stream_krim(chk, i, rng, instrument=True):
     X, kind = gen_data(chk, rng, nmax=22)
     if kind == "scaled":
         X = X / np.abs(X).max()
@@ -293,20 +362,21 @@ def stream_krim(chk, i, rng):
                     base_kernel=_callable_kernel if kname == "callable" else kname, base_kernel_params=params,
                     random_state=int(rng.integers(0, 10 ** 6)))
     replay = {"estimator": "KernelRIM", "kernel": kname, "kernel_params": params, "n": n, "d": d, "K": K, "batch_size": bs, "data": kind}
-    rec = []
-    orig = est._infer
-
-    def rec_infer(Z, retain=True):
-        out = orig(Z, retain)
-        rec.append((np.array(Z, copy=True), np.array(out, copy=True)))
-        return out
-    est._infer = rec_infer
-    try:
+    rec, rec_err = [], []
+    if instrument:
+        restore = record_calls(est, "_infer", rec, rec_err)
+        try:
+            est.fit(X)
+        finally:
+            restore()
+        if rec_err or not rec:
+            raise HarnessError("the _infer recorder failed: " + (rec_err[0] if rec_err else "no call recorded"))
+        fitK, fitP = rec[-1]                   # the labelling pass of fit: _infer(training_kernel_)
+    else:                                      # fallback without instrumentation (only after the recorder itself failed)
         est.fit(X)
-    finally:
-        del est._infer
+        fitK = np.array(est.training_kernel_, copy=True)
+        fitP = np.asarray(est._infer(est.training_kernel_, retain=False))
     key = "krim"
-    fitK, fitP = rec[-1]                       # the labelling pass of fit: _infer(training_kernel_)
     Xn = fresh_array(rng, X)
     if kname == "cosine":
         Xn = Xn + 0.1
@@ -781,13 +851,13 @@ def main():
         st, case = rp["input"].get("stream"), rp["input"].get("case")
         chk.seed = rp.get("seed", chk.seed)
         if st in STREAMS:
-            chk.run_stream(st, STREAMS[st][0], 0, only=case)
+            chk.run_stream(st, guarded(st, STREAMS[st][0]), 0, only=case)
     else:
         for name, (fn, q, th) in STREAMS.items():
             cnt = q if chk.tier == "quick" else th
             if chk.l1_broken:
                 cnt *= 3
-            chk.run_stream(name, fn, cnt)
+            chk.run_stream(name, guarded(name, fn), cnt)
     fams = {f: {"selections": s[0], "bitwise_equal": s[1], "within_1e-12": s[2], "max_abs_diff": s[3]} for f, s in STATS.items()}
     chk.notes.append("row-wise probabilities, measured: " + "; ".join(
         f"{f}: {s[1]}/{s[0]} selections bit-identical, {s[2]} within 1e-12, max |diff| {s[3]:.2e}" for f, s in STATS.items()))
